@@ -91,9 +91,7 @@ static ld dist2x_to_lines(const Paths64& PP, const Point64& v2) {
 
 static std::string pstr(const Point64& p) { return "(" + std::to_string(p.x) + "," + std::to_string(p.y) + ")"; }
 
-struct Verdict { bool bad = false; long long crossings = 0; };
-
-// Judge `res` = RectClipLines(rect, PP) against the polylines PP (in this order). tag_multi: classifier tag.
+// Judge `res` = RectClipLines(rect, PP) against the polylines PP (in this order); strict_cuts = Liang-Barsky cut points.
 static bool judge_call(Ctx& ctx, const Case& c, const RB& R, const Paths64& PP, const Paths64& res, const std::string& what,
                        long long& strict_cuts) {
   const std::string multi = PP.size() > 1 ? "multi" : "single";
@@ -114,8 +112,8 @@ static bool judge_call(Ctx& ctx, const Case& c, const RB& R, const Paths64& PP, 
       ld d = dist2x_to_lines(PP, probe) * 0.5L;
       if (d > 1.5L + 1e-6L) {
         std::vector<std::string> tags = { pass == 0 ? "vertex_off_input" : "midpoint_off_input", multi };
-        // classifier of the known defect: the vertex is exactly the origin (a default-constructed Point64) and some
-        // input segment passes within one unit of a rectangle corner
+        // classifier of the known defect: the vertex is exactly the origin (a default-constructed Point64) and some input
+        // segment passes within one unit of a rectangle corner, not through it, reaching >= 2^26 away (c08_corner.h)
         if (pass == 0 && v.x == 0 && v.y == 0) {
           bool graze = false;
           for (auto& P : PP) if (c08::passes_near_corner(P, false, c08::RBox{ R.l, R.t, R.r, R.b })) graze = true;
